@@ -1,9 +1,9 @@
 #!/bin/sh
-# tools/verify_seed.sh <Cnn> <mK>  : independently confirm a seeded change produced by a sub-agent
+# tools/verify_seed.sh <worktree-id> <mK> [<seed-name>] : independently confirm a seeded change produced by a sub-agent
 # in scratch worktree /tmp/wt/<Cnn> (patch applies; full suite passes with it; demo fails with it
 # and passes without it), then store it under /verif/seeded/<Cnn>-<mK>/.
 set -u
-P=$1; M=$2; WT=/tmp/wt/$P; SRC=$WT/out/$M; DST=/verif/seeded/$P-$M
+P=$1; M=$2; WT=/tmp/wt/$P; SRC=$WT/out/$M; DST=/verif/seeded/${3:-$P-$M}
 cd $WT || exit 2
 git checkout -q -- sigma tests 2>/dev/null
 git apply --check $SRC/patch.diff || { echo "patch does not apply"; exit 2; }
